@@ -1,3 +1,60 @@
+/-
+  C03 — EDIF write-then-read returns the same netlist.
+  Only the property theorems and their non-vacuity examples; proofs are in ../Lemmas*.lean,
+  definitions in ../Model*.lean.
+-/
 import Spydr.Edif.LemmasLex
-namespace Spydr.Edif
-end Spydr.Edif
+import Spydr.Edif.LemmasNames
+import Spydr.Edif.LemmasPins
+namespace Spydr.Edif.C03
+open Spydr.Edif
+
+/-- **lex_layout**: the tokenizer applied to the writer's layout of any expression whose atoms are
+    plain words or quoted strings without double quote / line break (the hypothesis C03's
+    quantifier names) returns exactly the expression's tokens. -/
+theorem lex_layout (e : SExp) (he : e.clean) : lexE (layoutE e) = flattenS e :=
+  Spydr.Edif.lex_layout e he
+
+/-- **readS_flatten**: the token reader inverts flattening, whatever follows. -/
+theorem readS_flatten (e : SExp) (r : List Tok) : readS (flattenS e ++ r) = some (e, r) :=
+  Spydr.Edif.readS_flatten e r
+
+/-- characters → tokens → tree is the identity on what the writer lays out: the file written is
+    read back as the very s-expression that was written. -/
+theorem read_lex_layout (e : SExp) (he : e.clean) : readS (lexE (layoutE e)) = some (e, []) :=
+  Spydr.Edif.read_lex_layout e he
+
+example : (SExp.list [A "net", .list [A "rename", A "a_0_", qtok "a b(0)".toList], .list [A "joined"]]).clean := by
+  refine ⟨Or.inl ⟨by decide, by decide⟩, ⟨Or.inl ⟨by decide, by decide⟩, Or.inl ⟨by decide, by decide⟩,
+    Or.inr ⟨"a b(0)".toList, rfl, by decide⟩, trivial⟩, ⟨Or.inl ⟨by decide, by decide⟩, trivial⟩, trivial⟩
+
+/-- **name_index_roundtrip**: the reader's `separate_name_and_index` inverts the writer's bit naming
+    `id_i_` (every identifier) and `name[i]` (every name that is not a backslash-escaped name). -/
+theorem name_index_roundtrip (ident name : Str) (i : Nat) (c : Char) (r : Str) (hn : name = c :: r) (hc : c ≠ '\\') :
+    sepIdent (bitIdent ident i) = (some i, ident) ∧ sepName (bitName name i) = (some i, name) :=
+  ⟨sepIdent_bitIdent ident i, sepName_bitName name i (bracketAllowed_of_head name i c r hn hc)⟩
+
+/-- a name that does not end in `[digits]` is returned unchanged, with no index: only scalar nets
+    named like a bus bit (the pinned finding's sub-domain) can be mistaken for one -/
+theorem name_index_plain (name : Str) (h : splitIdx '[' ']' name = none) : sepName name = (none, name) :=
+  sepName_plain name h
+
+example : sepIdent (bitIdent "&_x".toList 31) = (some 31, "&_x".toList) ∧
+    sepName (bitName "data[7:0]".toList 3) = (some 3, "data[7:0]".toList) ∧
+    sepName "clk".toList = (none, "clk".toList) := by decide +kernel
+
+/-- decimal numerals written by the writer (array sizes, member indices) are read back exactly -/
+theorem numeral_roundtrip (n : Nat) : intTok (natStr n) = IntTok.ok (Int.ofNat n) := intTok_natStr n
+
+/-- **member_index** on the writer's own output: a pin reference `(portref (member P k) (instanceref I))`
+    written for bit `k` of port `pi` of child `ii` is read back as exactly that pin -/
+theorem member_index_roundtrip (cx : DefCtx) (P I : Str) (k pi ii li di : Nat) (inst : CInst) (d : CDef) (p : CPort)
+    (hP : validIdentTok P = true) (hI : validIdentTok I = true)
+    (hfi : findIdent (cx.insts.map (·.data)) I = some ii) (hi : cx.insts[ii]? = some inst)
+    (hr : inst.ref = some (li, di)) (hd : (defsOfLib cx.sc li)[di]? = some d)
+    (hf : findIdent (d.ports.map (·.data)) P = some pi) (hp : d.ports[pi]? = some p) (hk : k < p.width) :
+    parsePortRef cx [A "portref", .list [A "member", .atom P, .atom (natStr k)], .list [A "instanceref", .atom I]]
+      = .ok (.inst ii pi k) :=
+  member_index_inst cx P I k pi ii li di inst d p hP hI hfi hi hr hd hf hp hk
+
+end Spydr.Edif.C03
